@@ -5,6 +5,7 @@ development (invariant of the cloner, Hoare rules) is in Lemmas/Clone.lean.
 -/
 import IrVerif.Lemmas.Clone
 import IrVerif.Lemmas.CloneFrame
+import IrVerif.Lemmas.CloneFrame2
 import IrVerif.Lemmas.CloneSim
 import IrVerif.Lemmas.CloneSer
 import IrVerif.Lemmas.CloneScope
@@ -181,7 +182,7 @@ theorem C13_closed {w w' : World} {fuel : Nat} {allow : Bool} {g g' : Nat}
   have hin := owned_new hres (hroot g' rfl) hi
   constructor
   · intro n hn
-    obtain ⟨_, _, _, d, _, f⟩ := hres.cells i _ hin.1 hn
+    obtain ⟨_, _, _, d, _, f, _⟩ := hres.cells i _ hin.1 hn
     exact ⟨f, fun gr hgr => by rw [hgr] at d; exact d⟩
   · intro v hv
     obtain ⟨_, _, _, _, e, f, _⟩ := hres.cells i _ hin.1 hv
@@ -194,7 +195,7 @@ theorem C13_closed_model {w w' : World} {fuel : Nat} {m m' : Nat}
   obtain ⟨hres, hroot⟩ := CloneResult.of_good (fun s hI => modelClone_good fuel m hI) h
   have hin := owned_new hres (hroot m' rfl) hi
   intro n hn
-  obtain ⟨_, _, _, _, _, f⟩ := hres.cells i _ hin.1 hn
+  obtain ⟨_, _, _, _, _, f, _⟩ := hres.cells i _ hin.1 hn
   exact f rfl
 
 /-- **C13_clone_pure**.  Cloning never changes a pre-existing object, whether it returns or
@@ -218,12 +219,12 @@ theorem C13_clone_pure_model {w w' : World} {fuel : Nat} {m : Nat} {r : Except E
 
 /-! ### C13_frame: edits of one copy leave the other copy's cells unchanged -/
 
-theorem FInv.restart {strict : Bool} {B : Nat → Prop} {wB : World} {s : St} (h : FInv strict B wB s) :
-    FInv strict B wB { w := s.w } := ⟨h.bound, h.same, h.sep⟩
+theorem FInv.restart {ex strict : Bool} {B : Nat → Prop} {wB : World} {s : St} (h : FInv ex strict B wB s) :
+    FInv ex strict B wB { w := s.w } := ⟨h.bound, h.same, h.sep⟩
 
-theorem runHistory_inv {strict : Bool} {B : Nat → Prop} {wB : World} :
-    ∀ (es : List Edit) (w : World), FInv strict B wB { w := w } → (∀ e ∈ es, ArgsOut B e) →
-      FInv strict B wB { w := (runHistory es w).2 }
+theorem runHistory_inv {ex strict : Bool} {B : Nat → Prop} {wB : World} :
+    ∀ (es : List Edit) (w : World), FInv ex strict B wB { w := w } → (∀ e ∈ es, ArgsOut B e) →
+      FInv ex strict B wB { w := (runHistory es w).2 }
   | [], _, h, _ => h
   | e :: es, w, h, ha => by
     have h1 := (applyEdit_frame e h (ha e List.mem_cons_self)).1
@@ -258,8 +259,8 @@ theorem C13_frame (B : Nat → Prop) (w : World) (es : List Edit)
     (hargs : ∀ e ∈ es, ∀ a ∈ e.args, ¬ B a) :
     ∀ i, B i → (runHistory es w).2[i]? = w[i]? := by
   intro i hi
-  have := (runHistory_inv (strict := true) (wB := w) es w
-    ⟨hb, fun _ _ => OptRel.refl _ _ _, hsep⟩ hargs).same i hi
+  have := (runHistory_inv (ex := false) (strict := true) (wB := w) es w
+    ⟨hb, fun _ _ => OptRel.refl _ _ _, fun i c hi hc => CellOutX.of_cellOut (hsep i c hi hc)⟩ hargs).same i hi
   simp only at this
   cases h1 : w[i]? with
   | none =>
@@ -285,7 +286,8 @@ theorem C13_frame_weak (B : Nat → Prop) (w : World) (es : List Edit)
     (hsep : ∀ (i : Nat) (c : Cell), ¬ B i → w[i]? = some c → CellOut false B c)
     (hargs : ∀ e ∈ es, ∀ a ∈ e.args, ¬ B a) :
     ∀ i, B i → OptRel false B (w[i]?) ((runHistory es w).2[i]?) :=
-  (runHistory_inv (strict := false) (wB := w) es w ⟨hb, fun _ _ => OptRel.refl _ _ _, hsep⟩ hargs).same
+  (runHistory_inv (ex := false) (strict := false) (wB := w) es w
+    ⟨hb, fun _ _ => OptRel.refl _ _ _, fun i c hi hc => CellOutX.of_cellOut (hsep i c hi hc)⟩ hargs).same
 
 /-- the pre-existing cells a clone must leave alone: all of them except the tensor objects, which
     clone and original share by design (`Value.name = ...` writes through to `const_value.name`:
@@ -312,7 +314,7 @@ theorem cellOut_of_cellOk {w0 : World} {hi : Nat} {allow : Bool} {c : Cell}
       · exact fun hp => Nat.not_lt.mpr k hp.1
       · exact fun hp => hp.2 k
   | node n =>
-    obtain ⟨_, b, c, _, _, f⟩ := h
+    obtain ⟨_, b, c, _, _, f, _⟩ := h
     exact ⟨fun hs v hv => nin _ (f (by simpa using hs) v hv), nin _ b, nin _ c⟩
   | graph g =>
     obtain ⟨_, b, _, _, e, f⟩ := h
@@ -679,60 +681,6 @@ theorem C13_closed_outer {w w' : World} {fuel : Nat} {allow : Bool} {g g' : Nat}
 
 /-! ### C13_raises_iff_inputs: exactly when a node input makes the clone raise -/
 
-/-- what `mapInputs` (the node-input loop of `clone_node`, `_cloner.py` 171-193) answers -/
-def mapInputsPure (allow : Bool) (s : St) : List (Option Nat) → Except Err (List (Option Nat))
-  | [] => .ok []
-  | none :: rest => (mapInputsPure allow s rest).map (none :: ·)
-  | some v :: rest =>
-    match s.vm.lookup v with
-    | some v' => (mapInputsPure allow s rest).map (some v' :: ·)
-    | none =>
-      if allow then
-        if s.pend.contains v then .error (.raised "value defined by a later node of the graph being cloned")
-        else (mapInputsPure allow s rest).map (some v :: ·)
-      else .error (.raised "outer-scope value")
-
-theorem mapInputs_eq_pure (allow : Bool) (s : St) :
-    ∀ l, mapInputs allow l s = (mapInputsPure allow s l, s)
-  | [] => rfl
-  | none :: rest => by
-    have ih := mapInputs_eq_pure allow s rest
-    unfold mapInputs mapInputsPure
-    show M.bind (mapInputs allow rest) _ s = _
-    unfold M.bind
-    rw [ih]
-    cases mapInputsPure allow s rest <;> rfl
-  | some v :: rest => by
-    have ih := mapInputs_eq_pure allow s rest
-    unfold mapInputs mapInputsPure
-    show M.bind (vmGet v) _ s = _
-    unfold M.bind vmGet
-    simp only
-    cases hlk : s.vm.lookup v with
-    | some v' =>
-      simp only
-      show M.bind (mapInputs allow rest) _ s = _
-      unfold M.bind
-      rw [ih]
-      cases mapInputsPure allow s rest <;> rfl
-    | none =>
-      simp only
-      cases allow with
-      | false => rfl
-      | true =>
-        simp only [if_true]
-        show M.bind (pendHas v) _ s = _
-        unfold M.bind pendHas
-        simp only
-        cases hp : s.pend.contains v with
-        | true => rfl
-        | false =>
-          simp only [Bool.false_eq_true, if_false]
-          show M.bind (mapInputs true rest) _ s = _
-          unfold M.bind
-          rw [ih]
-          cases mapInputsPure true s rest <;> rfl
-
 /-- an input the cloner cannot resolve: not bound in the value map and either outer-scope values
     are not allowed, or it is the output of a node of the graph that is still to be cloned -/
 def Unresolved (allow : Bool) (s : St) (l : List (Option Nat)) : Prop :=
@@ -1028,6 +976,326 @@ def exCapture : World := [
 /-- C13_closed_outer is not vacuous: the clone is returned and its node consumes the outer value -/
 example : isOk (run (graphClone 4 true 0) exCapture).1 = true ∧
     inputsOfNodesNamed (run (graphClone 4 true 0) exCapture).2 "c" = [[some 3], [some 3]] := by
+  decide +kernel
+
+/-! ### C13_frame over the extended alphabet `Edit2` (deepening round 3)
+
+`Edit2` = the 31 calls of `Edit` plus `graph.inputs.append / pop`, `graph.initializers[k] = v`,
+`del graph.initializers[k]`, `graph.register_initializer`, `graph.sort()` (graphs whose nodes hold no
+subgraphs), `graph.insert_before / insert_after`, `Value.replace_all_uses_with` (with and without
+`replace_graph_outputs`), `Node.resize_inputs / resize_outputs`, `model.functions[id] = f`,
+`del model.functions[id]`.  These calls follow four more kinds of pointers (the users of a value, the
+outputs of a node, the inputs and the initializers of a graph), so the separation hypothesis is
+`CellOutX true` instead of `CellOut`. -/
+
+theorem runHistory2_inv {strict : Bool} {B : Nat → Prop} {wB : World} :
+    ∀ (es : List Edit2) (w : World), FInv true strict B wB { w := w } → (∀ e ∈ es, ArgsOut2 B e) →
+      FInv true strict B wB { w := (runHistory2 es w).2 }
+  | [], _, h, _ => h
+  | e :: es, w, h, ha => by
+    have h1 := (applyEdit2_frame e h (ha e List.mem_cons_self)).1
+    unfold runHistory2 run
+    rcases hm : applyEdit2 e { w := w } with ⟨r, s1⟩
+    rw [hm] at h1
+    simp only
+    have h2 := runHistory2_inv es s1.w h1.restart (fun e' he' => ha e' (List.mem_cons_of_mem _ he'))
+    rcases hr : runHistory2 es s1.w with ⟨rs, w2⟩
+    rw [hr] at h2
+    exact h2
+
+/-- **C13_frame_ext** (general form, extended alphabet).  Let `B` be any set of cells of a heap `w`
+    such that no cell outside `B` has a pointer into `B` among the pointers the 44 editing calls of
+    `Edit2` follow (those of `C13_frame`, and: the users of a value, the outputs of a node, the
+    inputs and initializers of a graph).  Then for EVERY history of such calls whose receivers and
+    arguments are outside `B` — however long, whether the calls succeed or raise half-way — every
+    cell of `B` is afterwards exactly what it was. -/
+theorem C13_frame_ext (B : Nat → Prop) (w : World) (es : List Edit2)
+    (hb : ∀ i, B i → i < w.length)
+    (hsep : ∀ (i : Nat) (c : Cell), ¬ B i → w[i]? = some c → CellOutX true true B c)
+    (hargs : ∀ e ∈ es, ∀ a ∈ e.args, ¬ B a) :
+    ∀ i, B i → (runHistory2 es w).2[i]? = w[i]? := by
+  intro i hi
+  have := (runHistory2_inv (strict := true) (wB := w) es w
+    ⟨hb, fun _ _ => OptRel.refl _ _ _, hsep⟩ hargs).same i hi
+  simp only at this
+  cases h1 : w[i]? with
+  | none =>
+    rw [h1] at this
+    cases h2 : (runHistory2 es w).2[i]? with
+    | none => rfl
+    | some c => rw [h2] at this; exact this.elim
+  | some c0 =>
+    rw [h1] at this
+    cases h2 : (runHistory2 es w).2[i]? with
+    | none => rw [h2] at this; exact this.elim
+    | some c =>
+      rw [h2] at this
+      have : c = c0 := by simpa [OptRel, CellRel] using this
+      rw [this]
+
+theorem cellOutX_of_cellOk {w0 : World} {hi : Nat} {c : Cell}
+    (h : CellOk w0 w0.length hi false c) : CellOutX true true (Protected w0) c := by
+  have nin : ∀ x, In w0.length hi x → ¬ Protected w0 x := fun x hx hp => Nat.not_lt.mpr hx.1 hp.1
+  have base := cellOut_of_cellOk (allow := false) h
+  cases c with
+  | val v =>
+    obtain ⟨a, b, c, d, e, f⟩ := base
+    obtain ⟨_, _, _, _, _, _, _, k⟩ := h
+    exact ⟨a, b, c, d, e, f, fun _ x hx hp => Nat.not_lt.mpr (k x hx) hp.1⟩
+  | node n =>
+    obtain ⟨a, b, c⟩ := base
+    obtain ⟨o, _⟩ := h
+    exact ⟨a, b, c, fun _ x hx => nin _ (o x hx)⟩
+  | graph g =>
+    obtain ⟨a, b, c⟩ := base
+    obtain ⟨i1, _, i3, _⟩ := h
+    exact ⟨a, b, c, fun _ => ⟨fun x hx => nin _ (i1 x hx), fun e he => nin _ (i3 e he)⟩⟩
+  | model m => exact base
+  | attr _ => trivial
+  | func _ => trivial
+  | type _ => trivial
+  | shape _ => trivial
+  | dict _ => trivial
+  | tensor _ => trivial
+
+/-- editing the clone with the extended alphabet never changes the original -/
+theorem frame_clone_edited_ext {w w' : World} (hwf : wellFormed w = true) (hres : CloneResult w false w')
+    (es : List Edit2) (hargs : ∀ e ∈ es, ∀ a ∈ e.args, ¬ Protected w a) :
+    ∀ i, Protected w i → (runHistory2 es w').2[i]? = w[i]? := by
+  intro i hi
+  have hsep : ∀ (i : Nat) (c : Cell), ¬ Protected w i → w'[i]? = some c →
+      CellOutX true true (Protected w) c := by
+    intro i c hni hc
+    rcases Nat.lt_or_ge i w.length with hlt | hge
+    · have hct : ConstTarget w i := Classical.byContradiction (fun hn => hni ⟨hlt, hn⟩)
+      obtain ⟨nm, hnm⟩ := constTarget_tensor hwf hct
+      have := hres.oldEq rfl i _ hnm
+      rw [hc] at this
+      cases this
+      trivial
+    · exact cellOutX_of_cellOk (hres.cells i c hge hc)
+  have := C13_frame_ext (Protected w) w' es (fun i hi => Nat.lt_of_lt_of_le hi.1 hres.grows) hsep hargs i hi
+  rw [this]
+  exact hres.oldEq rfl i _ (List.getElem?_eq_getElem hi.1) ▸ (List.getElem?_eq_getElem hi.1).symm ▸ rfl
+
+/-- **C13_frame_clone_edited_ext** (`Graph.clone()`, `GraphView.clone()`): after cloning, every
+    history of the 44 editing calls applied to objects that did not exist before (the clone's
+    objects, objects the edits create) leaves every pre-existing cell — the original and everything
+    around it, except the shared tensor objects — exactly as it was before cloning. -/
+theorem C13_frame_clone_edited_ext {w w' : World} {fuel g : Nat} {r : Except Err Nat}
+    (hwf : wellFormed w = true)
+    (h : run (graphClone fuel false g) w = (r, w')) (es : List Edit2)
+    (hargs : ∀ e ∈ es, ∀ a ∈ e.args, ¬ Protected w a) :
+    ∀ i, Protected w i → (runHistory2 es w').2[i]? = w[i]? :=
+  frame_clone_edited_ext hwf (CloneResult.of_good (fun s hI => graphClone_good fuel g hI) h).1 es hargs
+
+/-- **C13_frame_function_ext** (`Function.clone()`). -/
+theorem C13_frame_function_ext {w w' : World} {fuel f : Nat} {r : Except Err Nat}
+    (hwf : wellFormed w = true)
+    (h : run (funcClone fuel f) w = (r, w')) (es : List Edit2)
+    (hargs : ∀ e ∈ es, ∀ a ∈ e.args, ¬ Protected w a) :
+    ∀ i, Protected w i → (runHistory2 es w').2[i]? = w[i]? :=
+  frame_clone_edited_ext hwf (CloneResult.of_good (fun s hI => funcClone_good fuel f hI) h).1 es hargs
+
+/-- **C13_functionalize_ext**: `C13_functionalize` for wrapped passes that use the extended
+    alphabet (`functionalize2`). -/
+theorem C13_functionalize_ext {w w' : World} {fuel m : Nat} {r : Except Err Nat}
+    (pass : Nat → World → List Edit2) (hwf : wellFormed w = true)
+    (h : functionalize2 fuel pass m w = (r, w'))
+    (hargs : ∀ m' w1, ∀ e ∈ pass m' w1, ∀ a ∈ e.args, ¬ Protected w a) :
+    ∀ i, Protected w i → w'[i]? = w[i]? := by
+  unfold functionalize2 at h
+  rcases hrun : run (modelClone fuel m) w with ⟨r1, w1⟩
+  rw [hrun] at h
+  have hres := (CloneResult.of_good (fun s hI => modelClone_good fuel m hI) hrun).1
+  cases r1 with
+  | ok m' =>
+    simp only [Prod.mk.injEq] at h
+    obtain ⟨_, rfl⟩ := h
+    exact frame_clone_edited_ext hwf hres (pass m' w1) (hargs m' w1)
+  | error e =>
+    simp only [Prod.mk.injEq] at h
+    obtain ⟨_, rfl⟩ := h
+    intro i hi
+    exact hres.oldEq rfl i _ (List.getElem?_eq_getElem hi.1) ▸ (List.getElem?_eq_getElem hi.1).symm ▸ rfl
+
+theorem cellOutX_of_followed {B : Nat → Prop} {c : Cell} (h : ∀ p ∈ followed c, ¬ B p)
+    (h2 : ∀ p ∈ followed2 c, ¬ B p) : CellOutX true true B c := by
+  have base := cellOut_of_followed h
+  cases c with
+  | val v =>
+    obtain ⟨a, b, c, d, e, f⟩ := base
+    exact ⟨a, b, c, d, e, f, fun _ x hx => h2 x.1 (by simp only [followed2]; exact List.mem_map.mpr ⟨x, hx, rfl⟩)⟩
+  | node n =>
+    obtain ⟨a, b, c⟩ := base
+    exact ⟨a, b, c, fun _ x hx => h2 x (by simpa [followed2] using hx)⟩
+  | graph g =>
+    obtain ⟨a, b, c⟩ := base
+    refine ⟨a, b, c, fun _ => ⟨fun x hx => h2 x (by simp [followed2, hx]), fun e he => h2 e.2 ?_⟩⟩
+    simp only [followed2, List.mem_append, List.mem_map]
+    exact .inr ⟨e, he, rfl⟩
+  | model m => exact base
+  | attr _ => trivial
+  | func _ => trivial
+  | type _ => trivial
+  | shape _ => trivial
+  | dict _ => trivial
+  | tensor _ => trivial
+
+theorem wellFormed2_spec {w : World} (h : wellFormed2 w = true) {i : Nat} {c : Cell}
+    (hc : w[i]? = some c) : wellFormed w = true ∧ ∀ p ∈ followed2 c, p < w.length := by
+  unfold wellFormed2 at h
+  rw [Bool.and_eq_true, List.all_eq_true] at h
+  refine ⟨h.1, ?_⟩
+  have := h.2 c (List.mem_of_getElem? hc)
+  rw [List.all_eq_true] at this
+  intro p hp
+  simpa using this p hp
+
+/-- the original edited with the extended alphabet: shared statement -/
+theorem frame_orig_edited_ext {w w' : World} (hwf : wellFormed2 w = true) (hres : CloneResult w false w')
+    (es : List Edit2) (hargs : ∀ e ∈ es, ∀ a ∈ e.args, ¬ (w.length ≤ a ∧ a < w'.length)) :
+    ∀ i, w.length ≤ i → i < w'.length → (runHistory2 es w').2[i]? = w'[i]? := by
+  intro i h1 h2
+  refine C13_frame_ext (fun i => w.length ≤ i ∧ i < w'.length) w' es (fun i hi => hi.2) ?_ hargs i ⟨h1, h2⟩
+  intro j c hj hc
+  have hjlt : j < w.length := by
+    have := lt_of_getElem? hc
+    rcases Nat.lt_or_ge j w.length with h | h
+    · exact h
+    · exact absurd ⟨h, this⟩ hj
+  have heq := hres.oldEq rfl j _ (List.getElem?_eq_getElem hjlt)
+  rw [hc] at heq
+  cases heq
+  obtain ⟨hwf1, hf2⟩ := wellFormed2_spec hwf (List.getElem?_eq_getElem hjlt)
+  apply cellOutX_of_followed
+  · intro p hp hB
+    have := wellFormed_spec hwf1 (List.getElem?_eq_getElem hjlt) p hp
+    omega
+  · intro p hp hB
+    have := hf2 p hp
+    omega
+
+/-- **C13_frame_orig_edited_ext** (`Graph.clone()` / `GraphView.clone()` with
+    `allow_outer_scope_values=False`).  The symmetric direction for the extended alphabet: if the
+    heap before cloning has no dangling pointers (`wellFormed2`: also usage records, node outputs,
+    graph inputs and initializers name existing cells), every history of the 44 editing calls whose
+    receivers and arguments are not objects created by the clone leaves every cell created by the
+    clone exactly as it was.  (With `allow_outer_scope_values=True` the clone's nodes are users of
+    outer values of the original, and `outer.replace_all_uses_with(..)` on the original's side is
+    MEANT to rewire them: that case is covered by `C13_frame_orig_edited` for the first alphabet only.) -/
+theorem C13_frame_orig_edited_ext {w w' : World} {fuel g : Nat} {r : Except Err Nat}
+    (hwf : wellFormed2 w = true)
+    (h : run (graphClone fuel false g) w = (r, w')) (es : List Edit2)
+    (hargs : ∀ e ∈ es, ∀ a ∈ e.args, ¬ (w.length ≤ a ∧ a < w'.length)) :
+    ∀ i, w.length ≤ i → i < w'.length → (runHistory2 es w').2[i]? = w'[i]? :=
+  frame_orig_edited_ext hwf (CloneResult.of_good (fun s hI => graphClone_good fuel g hI) h).1 es hargs
+
+/-- **C13_frame_orig_edited_model_ext** (`Model.clone()`, hence `functionalize`). -/
+theorem C13_frame_orig_edited_model_ext {w w' : World} {fuel m : Nat} {r : Except Err Nat}
+    (hwf : wellFormed2 w = true)
+    (h : run (modelClone fuel m) w = (r, w')) (es : List Edit2)
+    (hargs : ∀ e ∈ es, ∀ a ∈ e.args, ¬ (w.length ≤ a ∧ a < w'.length)) :
+    ∀ i, w.length ≤ i → i < w'.length → (runHistory2 es w').2[i]? = w'[i]? :=
+  frame_orig_edited_ext hwf (CloneResult.of_good (fun s hI => modelClone_good fuel m hI) h).1 es hargs
+
+/-- **C13_frame_orig_edited_function_ext** (`Function.clone()`). -/
+theorem C13_frame_orig_edited_function_ext {w w' : World} {fuel f : Nat} {r : Except Err Nat}
+    (hwf : wellFormed2 w = true)
+    (h : run (funcClone fuel f) w = (r, w')) (es : List Edit2)
+    (hargs : ∀ e ∈ es, ∀ a ∈ e.args, ¬ (w.length ≤ a ∧ a < w'.length)) :
+    ∀ i, w.length ≤ i → i < w'.length → (runHistory2 es w').2[i]? = w'[i]? :=
+  frame_orig_edited_ext hwf (CloneResult.of_good (fun s hI => funcClone_good fuel f hI) h).1 es hargs
+
+/-! non-vacuity of the extended frame theorems -/
+
+example : wellFormed2 exWorld = true := by decide +kernel
+
+/-- a history of the new calls on the clone of `exWorld` (clone cells: 16 value `x`, 21 value `y`,
+    22 the node, 25 the graph): every call succeeds and really changes the clone -/
+def exHistory2 : List Edit2 :=
+  [.replaceAllUses 16 21 false, .resizeInputs 22 2, .resizeOutputs 22 2, .sort 25,
+   .popInput 25, .appendInput 25 16, .setInit 25 "x" 16, .delInit 25 "x", .insertBefore 25 22 22]
+
+example : ∀ e ∈ exHistory2, ∀ a ∈ e.args, exWorld.length ≤ a := by decide +kernel
+
+/-- each new call succeeds on the clone and really changes it (one call per example: the kernel
+    evaluates nested histories without sharing) -/
+example : isOk ((runHistory2 [.replaceAllUses 16 21 false] (run (graphClone 4 false 0) exWorld).2).1.head!.map
+      fun _ => 0) = true ∧
+    inputsOfNodesNamed (runHistory2 [.replaceAllUses 16 21 false] (run (graphClone 4 false 0) exWorld).2).2 "n" =
+      [[some 3], [some 21]] := by
+  decide +kernel
+
+example : inputsOfNodesNamed (runHistory2 [.resizeInputs 22 3] (run (graphClone 4 false 0) exWorld).2).2 "n" =
+      [[some 3], [some 16, none, none]] := by
+  decide +kernel
+
+/-! ### C13_closed_sharding: device annotations of the clone point into the clone -/
+
+theorem closed_sharding_of_result {w w' : World} {allow : Bool} (hd : devLocalW w = true)
+    (hres : CloneResult w allow w') {i : Nat} (hin : In w.length w'.length i) :
+    ∀ n, w'[i]? = some (.node n) → ∀ c ∈ n.dev, ∀ sp ∈ c.specs, ∀ v, sp.value = some v →
+      (some v ∈ n.inputs ∨ v ∈ n.outputs) ∧ (allow = false → w.length ≤ v ∧ v < w'.length) := by
+  intro n hn c hc sp hsp v hv
+  obtain ⟨o, _, _, _, _, f, f2⟩ := hres.cells i _ hin.1 hn
+  have hl := f2 hd c hc sp hsp v hv
+  refine ⟨hl, fun ha => ?_⟩
+  rcases hl with h1 | h1
+  · exact f ha v h1
+  · exact o v h1
+
+/-- **C13_closed_sharding** (`Graph.clone`, `GraphView.clone`).  If every sharding spec of the heap
+    before cloning targets an input or an output of its own node (`devLocalW`, decidable, checked on
+    every abstracted real heap: `Node.replace_input_with` / `resize_outputs` drop the specs of values
+    that leave the node), then every sharding spec of every node of the clone — at any depth —
+    targets an input or an output of THAT cloned node (the remap goes through the node's own
+    input/output correspondence since the fix of D350), and with `allow_outer_scope_values=False`
+    that value is an object of the clone: no device annotation of the clone refers to a value of the
+    original.  (With `True` the only spec values outside the clone are captured outer values the
+    node itself consumes, cf. `C13_closed_outer`.) -/
+theorem C13_closed_sharding {w w' : World} {fuel : Nat} {allow : Bool} {g g' : Nat}
+    (hd : devLocalW w = true)
+    (h : run (graphClone fuel allow g) w = (.ok g', w')) (i : Nat) (hi : Owned w' g' i) :
+    ∀ n, w'[i]? = some (.node n) → ∀ c ∈ n.dev, ∀ sp ∈ c.specs, ∀ v, sp.value = some v →
+      (some v ∈ n.inputs ∨ v ∈ n.outputs) ∧ (allow = false → w.length ≤ v ∧ v < w'.length) := by
+  obtain ⟨hres, hroot⟩ := CloneResult.of_good (fun s hI => graphClone_good fuel g hI) h
+  exact closed_sharding_of_result hd hres (owned_new hres (hroot g' rfl) hi)
+
+/-- **C13_closed_sharding_model** (`Model.clone`, hence `functionalize`; functions included). -/
+theorem C13_closed_sharding_model {w w' : World} {fuel : Nat} {m m' : Nat}
+    (hd : devLocalW w = true)
+    (h : run (modelClone fuel m) w = (.ok m', w')) (i : Nat) (hi : Owned w' m' i) :
+    ∀ n, w'[i]? = some (.node n) → ∀ c ∈ n.dev, ∀ sp ∈ c.specs, ∀ v, sp.value = some v →
+      (some v ∈ n.inputs ∨ v ∈ n.outputs) ∧ (w.length ≤ v ∧ v < w'.length) := by
+  obtain ⟨hres, hroot⟩ := CloneResult.of_good (fun s hI => modelClone_good fuel m hI) h
+  intro n hn c hc sp hsp v hv
+  have := closed_sharding_of_result hd hres (owned_new hres (hroot m' rfl) hi) n hn c hc sp hsp v hv
+  exact ⟨this.1, this.2 rfl⟩
+
+/-- a node with a sharding spec on its input: the hypothesis of C13_closed_sharding holds and the
+    spec of the cloned node targets the cloned input -/
+def exSharded : World := [
+  .graph { name := some "g", inputs := [3], outputs := [9], nodes := [6], props := 1, mstore := 2 },
+  .dict {}, .dict {},
+  .val { name := some "x", graph := some 0, isIn := true, uses := [(6, 0)], props := 4, mstore := 5 },
+  .dict {}, .dict {},
+  .node { name := some "n", opType := "Relu", inputs := [some 3], outputs := [9], graph := some 0,
+          dev := [{ cfg := 0, specs := [{ value := some 3, payload := 0 }, { value := some 9, payload := 1 }] }],
+          props := 7, mstore := 8 },
+  .dict {}, .dict {},
+  .val { name := some "y", producer := some 6, index := some 0, graph := some 0, isOut := true,
+         props := 10, mstore := 11 },
+  .dict {}, .dict {} ]
+
+def devOfNodesNamed (w : World) (nm : String) : List (List (Option Nat)) :=
+  w.filterMap fun c => match c with
+    | .node n => if n.name = some nm then some (n.dev.flatMap fun c => c.specs.map (·.value)) else none
+    | _ => none
+
+example : devLocalW exSharded = true ∧ devLocalW exWorld = true := by decide +kernel
+example : isOk (run (graphClone 4 false 0) exSharded).1 = true ∧
+    devOfNodesNamed (run (graphClone 4 false 0) exSharded).2 "n" = [[some 3, some 9], [some 14, some 19]] := by
   decide +kernel
 
 end IrVerif.Clone
